@@ -179,7 +179,7 @@ class BuildError(Exception):
 
 # ------------------------------------------------------------------- running
 
-SHARD_TIMEOUT = 1800
+SHARD_TIMEOUT = 4 * 3600
 CASE_TIMEOUT = 20
 
 
